@@ -478,6 +478,54 @@ fn main() {
                         }
                         roundtrip::<validator::v2::TimeoutQC>("TimeoutQC", &v, &mut rng, &mut rep);
                     }
+                    "tqc_near" => {
+                        let mut v: validator::v2::TimeoutQC = rng.gen();
+                        v.map.clear();
+                        let mut t1: validator::v2::ReplicaTimeout = rng.gen();
+                        t1.view = v.view.clone();
+                        t1.high_vote = Some(rng.gen());
+                        t1.high_qc = Some(rng.gen());
+                        let mut t2 = t1.clone();
+                        match case["leaf"].as_str().unwrap() {
+                            "hv_presence" => t2.high_vote = None,
+                            "hv_view" => t2.high_vote.as_mut().unwrap().view.number = validator::ViewNumber(t1.high_vote.as_ref().unwrap().view.number.0 ^ 1),
+                            "hv_number" => t2.high_vote.as_mut().unwrap().proposal.number = validator::BlockNumber(t1.high_vote.as_ref().unwrap().proposal.number.0 ^ 1),
+                            "hv_payload" => t2.high_vote.as_mut().unwrap().proposal.payload = rng.gen(),
+                            "hq_presence" => t2.high_qc = None,
+                            "hq_view" => t2.high_qc.as_mut().unwrap().message.view.number = validator::ViewNumber(t1.high_qc.as_ref().unwrap().message.view.number.0 ^ 1),
+                            "hq_number" => t2.high_qc.as_mut().unwrap().message.proposal.number = validator::BlockNumber(t1.high_qc.as_ref().unwrap().message.proposal.number.0 ^ 1),
+                            "hq_signers" => {
+                                let b = &mut t2.high_qc.as_mut().unwrap().signers.0;
+                                if b.is_empty() {
+                                    b.push(true);
+                                } else {
+                                    let x = b.get(0).unwrap();
+                                    b.set(0, !x);
+                                }
+                            }
+                            _ => t2.high_qc.as_mut().unwrap().signature = rng.gen(),
+                        }
+                        rep.evaluations += 1;
+                        let (s1, s2): (validator::v2::Signers, validator::v2::Signers) = (rng.gen(), rng.gen());
+                        let mut a = v.clone();
+                        a.map.insert(t1.clone(), s1.clone());
+                        a.map.insert(t2.clone(), s2.clone());
+                        let mut b = v.clone();
+                        b.map.insert(t2.clone(), s2.clone());
+                        b.map.insert(t1.clone(), s1.clone());
+                        let tag = json!({"type": "TimeoutQC", "case": case});
+                        if t1 == t2 {
+                            rep.notes.push(format!("tqc_near {}: the two reports came out equal (harness)", case["leaf"]));
+                        } else if a.map.len() != 2 || b.map.len() != 2 {
+                            rep.fail("roundtrip_mismatch", format!("TimeoutQC: two reports that differ in {} are ONE key of the vote map ({} / {} entries after inserting both): the order of the keys disagrees with their equality, a vote is lost", case["leaf"], a.map.len(), b.map.len()), tag);
+                        } else if a.map.get(&t1) != Some(&s1) || a.map.get(&t2) != Some(&s2) {
+                            rep.fail("roundtrip_mismatch", format!("TimeoutQC: the signer set stored under a report that differs from another in {} cannot be found again", case["leaf"]), tag);
+                        } else if zksync_protobuf::encode(&a) != zksync_protobuf::encode(&b) {
+                            rep.fail("roundtrip_mismatch", format!("TimeoutQC: equal certificates built in different insertion orders encode to different bytes (reports differing in {})", case["leaf"]), tag);
+                        } else {
+                            roundtrip::<validator::v2::TimeoutQC>("TimeoutQC", &a, &mut rng, &mut rep);
+                        }
+                    }
                     "netaddr" => {
                         let key: validator::SecretKey = rng.gen();
                         let ts = if case["ts"] == "max" { time::UNIX_EPOCH + time::Duration::seconds(i64::MAX / 4) } else { time::UNIX_EPOCH };
